@@ -140,6 +140,18 @@ package tchannel
 //@   ensures err != context.Canceled ==> nnotify(old(mex.mexset.onCancel)) == old(nnotify(mex.mexset.onCancel))
 //@   property C14
 
+// Wherever the caller's wait ends because of the context (the pre-check before
+// blocking or the ctx.Done() case of the select), the error first goes through
+// onCtxErr -- the only place a cancelled context is propagated to the peer.
+//@ ghostfield nctxerr
+//@ func (mex *messageExchange) onCtxErr(err error)
+//@   defines nctxerr(mex) == old(nctxerr(mex)) + 1
+//@   property C14
+//@ func (mex *messageExchange) recvPeerFrame() (f *Frame, err error)
+//@   label context-error-goes-through-the-cancel-hook
+//@   atcall GetContextError nctxerr(mex) == old(nctxerr(mex)) + 1
+//@   property C14
+
 // recvPeerFrame (the caller's wait) is under contract in the C20 file (what a
 // returned frame is). "A cancelled context ends the wait with
 // ErrRequestCancelled" is GetContextError's contract (C20 file, tagged C14
